@@ -336,7 +336,7 @@ theorem reach_in_window (w0 : World) (h0 : w0.hosts = []) (sts : List Step) (h :
     elapsedNow ((run w0 sts).host! h) < ((run w0 sts).host! h).elapsed + ceilMs w0.cfg.tick ∧
     elapsedNow ((run w0 sts).host! h) < ((run w0 sts).host! h).elapsed + w0.cfg.tick ∧
     applyHOp (run w0 sts) h .clock =
-      (run w0 sts, s!"ok elapsed={elapsedNow ((run w0 sts).host! h)} sim={simNow ((run w0 sts).host! h)} epoch={epochNow 1700000000000000000 ((run w0 sts).host! h)} inst={((run w0 sts).host! h).hnow - ((run w0 sts).host! h).t0}") := by
+      (run w0 sts, s!"ok elapsed={elapsedNow ((run w0 sts).host! h)} sim={simNow ((run w0 sts).host! h)} epoch={epochNow 1700000000123456789 ((run w0 sts).host! h)} inst={((run w0 sts).host! h).hnow - ((run w0 sts).host! h).t0}") := by
   have hinv := winv_run w0 sts _ (winv_init w0 (fun _ => false) h0) h hh
   rw [run_cfg] at hinv
   have hw := hinv.2 ht
